@@ -446,10 +446,12 @@ func DecodeObject(r io.Reader) (ugo.Object, error) {
 			if _, err := io.CopyN(io.Discard, r, int64(gr.pos)); err != nil {
 				return nil, err
 			}
-			return v, nil
-		}
-		if err := gob.NewDecoder(r).Decode(&v); err != nil {
+		} else if err := gob.NewDecoder(r).Decode(&v); err != nil {
 			return nil, err
+		}
+		if v == nil {
+			// gob decodes an interface value without a type name as nil
+			return nil, errors.New("decode error: nil object")
 		}
 		return v, nil
 	}
